@@ -164,7 +164,7 @@ def field_worlds():
 
 
 def run(ctx):
-    run_suite(ctx, 'config.fields', field_worlds(), known=None, use_model=False)
+    run_suite(ctx, 'config.fields', [w for w in field_worlds() if getattr(ctx, 'hooks', {}).get('trimpath', True) or 'trimpath 1' not in w.ops], known=None, use_model=False)
     worlds = []
     n = 0
     for opt in OPTS:
